@@ -555,6 +555,35 @@ def window_covers_whole_dictionary(prog, res):
     res.need(R, 4)
 
 
+def repcodes_copied_whole(prog, res):
+    """T8: the three start repcodes of a dictionary travel as an array of U32.  Wherever they are bulk-copied the byte count is
+    a sizeof (of the array or of its type times the count); a bare element count copies 3 BYTES and leaves rep[1], rep[2] at
+    their defaults - frames of a dictionary with other repcodes then decode to other bytes through that path only."""
+    R = "T8.repcodes-copied-whole"
+    n = 0
+    for f in prog.all_functions():
+        if not f.file.startswith(("lib/decompress/", "lib/compress/")):
+            continue
+        for b, i, c in f.calls(("memcpy", "__builtin_memcpy", "memmove", "__builtin_memmove")):
+            if len(c.get("a", [])) < 3:
+                continue
+            d = [y for y in f.walk_resolved(c["a"][0]) if y.get("k") == "mem" and y.get("f") == "rep"]
+            if not d:
+                continue
+            dst = strip_casts(f.resolve_x(c["a"][0]))
+            if dst is not None and dst.get("k") == "un" and dst.get("op") == "&":
+                continue            # address of an enclosing struct: sized by that struct
+            n += 1
+            ok = any(y.get("k") == "sizeof" for y in f.walk_deep(c["a"][2]))
+            res.check(ok, R, "%s@%s" % (f.name, c.get("l")), "%s:%s" % (f.file, c.get("l")), "byte count is a sizeof expression",
+                      "%s copies repcodes with a byte count that is not a sizeof (an element count?): only the first bytes of rep[0] are copied" % f.name)
+    f = prog.fn("ZSTD_copyDDictParameters")
+    whole = [x for b, i, x in f.events(lambda y: y.get("k") == "asg") if any(y.get("f") == "rep" for y in walk(x["lhs"]))]
+    calls = [c for b, i, c in f.calls(("memcpy", "__builtin_memcpy")) if any(y.get("f") == "rep" for y in f.walk_resolved(c["a"][0]))]
+    res.check(len(whole) >= 3 or bool(calls), R, "ZSTD_copyDDictParameters", f.loc, "all three repcodes are handed to the context", "ZSTD_copyDDictParameters no longer copies three repcodes")
+    res.need(R, 2)
+
+
 def run(tier):
     res = Result("C08", tier)
     tus, info = extract(["compress", "common", "decompress", "dictBuilder"])
@@ -569,6 +598,7 @@ def run(tier):
     dict_id(prog, res)
     content_rules(prog, res)
     cdict_reload_coherence(prog, res)
+    repcodes_copied_whole(prog, res)
     ddict_set_rules(prog, res)
     window_covers_whole_dictionary(prog, res)
     return res.finish(
